@@ -319,6 +319,19 @@ struct W {
         virtual_ptr<TB, P> copy{virtual_ptr<TB, P>(as_b)};
         virtual_ptr<TB, P> copy2 = copy;
         check("copied", copy2);
+        virtual_ptr<TB, P> moved(std::move(copy));
+        check("moved", moved);
+        {
+            // assignment over a pointer that referred to another object
+            cls_t<B> other;
+            virtual_ptr<TB, P> a1(other), a2(other), a3(other);
+            a1 = copy2;
+            check("copy-assigned", a1);
+            a2 = virtual_ptr<TB, P>(as_b);
+            check("move-assigned", a2);
+            a3 = pd;
+            check("assigned-converted", a3);
+        }
         if constexpr (B == D) {
             check("exact", virtual_ptr<TD, P>(o));
             check("final", virtual_ptr<TD, P>::final(o));
@@ -357,6 +370,17 @@ struct W {
                          virtual_ptr<std::shared_ptr<TB>, P>(std::shared_ptr<TB>(sp)), &r, want_s);
             virtual_ptr<std::shared_ptr<TD>, P> vd(sp);
             check_shared("shared-converted", virtual_ptr<std::shared_ptr<TB>, P>(vd), &r, want_s);
+            {
+                virtual_ptr<std::shared_ptr<TB>, P> s1(spb), s2(std::move(s1));
+                check_shared("shared-moved", s2, &r, want_s);
+                auto other = std::make_shared<TD>();
+                virtual_ptr<std::shared_ptr<TB>, P> s3{std::shared_ptr<TB>(other)};
+                s3 = s2;
+                check_shared("shared-copy-assigned", s3, &r, want_s);
+                virtual_ptr<std::shared_ptr<TB>, P> s4{std::shared_ptr<TB>(other)};
+                s4 = vd;
+                check_shared("shared-assigned-converted", s4, &r, want_s);
+            }
             check_shared("shared-converted-rvalue",
                          virtual_ptr<std::shared_ptr<TB>, P>(virtual_ptr<std::shared_ptr<TD>, P>(sp)),
                          &r, want_s);
